@@ -65,6 +65,37 @@ def dirty_flag_rules(ctx, rule):
 
 
 
+def durability_plumbing(ctx, rule):
+    """the requested durability level travels unchanged from the public setters to the batch that is committed (shared with C09)"""
+    bt = ctx.fn("tx::write_tx::BaseTransaction::commit", rule)
+    if bt:
+        og = ctx.og(bt)
+        ok = False
+        for b, t in bt.calls():
+            if A.cname(t) == "batch::WriteBatch::durability":
+                term = og.of_operand(t["args"][1])
+                ok = any(A.ends_with_field(x, "durability") and (A.access_path(x) or ("",))[0] == "P1" for x in A.alternatives(term))
+        ctx.ob(rule, bt, "transaction-durability-forwarded-to-batch", ok,
+               "BaseTransaction::commit builds its batch with durability(self.durability)" if ok else "BaseTransaction::commit does not forward self.durability to the batch")
+    for fid in ("batch::WriteBatch::durability", "tx::write_tx::BaseTransaction::durability"):
+        fn = ctx.fn(fid, rule)
+        if fn:
+            asg = A.field_assigns(fn, "durability")
+            og = ctx.og(fn)
+            ok = any(og.of_rvalue(st["rv"]).k == "param" and og.of_rvalue(st["rv"]).a[0] == 2 for _, _, st in asg)
+            ctx.ob(rule, fn, "setter-stores-parameter", ok, "durability setter stores its `mode` parameter" if ok else "durability setter does not store its parameter")
+    for fid in ("tx::single_writer::write_tx::WriteTransaction::<'tx>::durability", "tx::optimistic::write_tx::WriteTransaction::durability"):
+        fn = ctx.fn(fid, rule)
+        if fn:
+            og = ctx.og(fn)
+            ok = False
+            for b, t in fn.calls():
+                if A.cname(t) == "tx::write_tx::BaseTransaction::durability":
+                    term = og.of_operand(t["args"][1])
+                    ok = term.k == "param" and term.a[0] == 2
+            ctx.ob(rule, fn, "setter-forwards-to-inner", ok, "transaction durability setter forwards `mode` to the inner BaseTransaction" if ok else "setter does not forward its parameter")
+
+
 def run(ctx):
     F = ctx.F
     entries = R.write_entries(ctx)
@@ -157,33 +188,7 @@ def run(ctx):
         ctx.ob("R-C02.2", fn, "default-durability-on-auto-persist-edge", bool(good) and not okret,
                "on the !manual_journal_persist edge every success path sets durability(Some(PersistMode::*))" if (good and not okret)
                else "with automatic journal persist a success path leaves the batch/transaction without a durability level (acknowledged writes would stay in the user-space buffer): bb%s" % ("->bb".join(map(str, okret[0])) if okret else "no durability(Some(..)) call"))
-    bt = ctx.fn("tx::write_tx::BaseTransaction::commit", "R-C02.2")
-    if bt:
-        og = ctx.og(bt)
-        ok = False
-        for b, t in bt.calls():
-            if A.cname(t) == "batch::WriteBatch::durability":
-                term = og.of_operand(t["args"][1])
-                ok = any(A.ends_with_field(x, "durability") and (A.access_path(x) or ("",))[0] == "P1" for x in A.alternatives(term))
-        ctx.ob("R-C02.2", bt, "transaction-durability-forwarded-to-batch", ok,
-               "BaseTransaction::commit builds its batch with durability(self.durability)" if ok else "BaseTransaction::commit does not forward self.durability to the batch")
-    for fid in ("batch::WriteBatch::durability", "tx::write_tx::BaseTransaction::durability"):
-        fn = ctx.fn(fid, "R-C02.2")
-        if fn:
-            asg = A.field_assigns(fn, "durability")
-            og = ctx.og(fn)
-            ok = any(og.of_rvalue(st["rv"]).k == "param" and og.of_rvalue(st["rv"]).a[0] == 2 for _, _, st in asg)
-            ctx.ob("R-C02.2", fn, "setter-stores-parameter", ok, "durability setter stores its `mode` parameter" if ok else "durability setter does not store its parameter")
-    for fid in ("tx::single_writer::write_tx::WriteTransaction::<'tx>::durability", "tx::optimistic::write_tx::WriteTransaction::durability"):
-        fn = ctx.fn(fid, "R-C02.2")
-        if fn:
-            og = ctx.og(fn)
-            ok = False
-            for b, t in fn.calls():
-                if A.cname(t) == "tx::write_tx::BaseTransaction::durability":
-                    term = og.of_operand(t["args"][1])
-                    ok = term.k == "param" and term.a[0] == 2
-            ctx.ob("R-C02.2", fn, "setter-forwards-to-inner", ok, "transaction durability setter forwards `mode` to the inner BaseTransaction" if ok else "setter does not forward its parameter")
+    durability_plumbing(ctx, "R-C02.2")
 
     dirty_flag_rules(ctx, "R-C02.3")
 
@@ -262,6 +267,10 @@ def run(ctx):
     # ---- R-C02.6 a sealed journal is deleted only when every live keyspace has persisted past its watermark (shared with C10)
     from . import C10
     C10.deletion_guard(ctx, "R-C02.6")
+
+    # ---- R-C02.7 recovery leaves the journal tail such that writes acknowledged afterwards are readable next time (shared with C03)
+    from . import C03
+    C03.tail_repair(ctx, "R-C02.7")
 
     # ---- R-C02.5 who may touch files
     n = FS.check_fs_table(ctx, "R-C02.5")
